@@ -42,7 +42,7 @@ def body(case, col):
 
 
 def run_shard(spec, ctx):
-    run_given(E.cases(thorough=ctx.thorough), body, ctx, ctx.pick(150, 520))
+    run_given(E.cases(thorough=ctx.thorough), body, ctx, ctx.pick(150, 400))
     # boundary-directed stratum: coded slice lengths placed on the 255/256-byte length-field boundaries
     run_given(E.boundary_cases(), body, ctx, ctx.pick(15, 40), salt=1)
 
